@@ -29,26 +29,26 @@ type PHeader struct {
 }
 
 type PDense struct {
-	IDs, Lat, Lon                []int64
-	KV                           []int64
-	HasInfo                      bool
-	Ver, TS, CS, UID, SID, Vis   []int64
+	IDs, Lat, Lon              []int64
+	KV                         []int64
+	HasInfo                    bool
+	Ver, TS, CS, UID, SID, Vis []int64
 }
 
 type PInfo struct{ Ver, TS, CS, UID, SID, Vis *int64 }
 
 type PWay struct {
-	ID              int64
-	Keys, Vals      []int64
-	Info            *PInfo
-	Refs, Lat, Lon  []int64
+	ID             int64
+	Keys, Vals     []int64
+	Info           *PInfo
+	Refs, Lat, Lon []int64
 }
 
 type PRel struct {
-	ID                    int64
-	Keys, Vals            []int64
-	Info                  *PInfo
-	Roles, MemIDs, Types  []int64
+	ID                   int64
+	Keys, Vals           []int64
+	Info                 *PInfo
+	Roles, MemIDs, Types []int64
 }
 
 type PGroup struct {
@@ -58,11 +58,11 @@ type PGroup struct {
 }
 
 type PBlock struct {
-	Zlib                          bool
+	Zlib                           bool
 	Gran, DateGran, LatOff, LonOff *int64
-	Strings                       []string
-	Groups                        []PGroup
-	Lay                           int
+	Strings                        []string
+	Groups                         []PGroup
+	Lay                            int
 }
 
 type PFile struct {
@@ -793,7 +793,7 @@ func (g *pgen) sid(s string) int64 {
 
 var pgStrings = []string{"alice", "Bob & Carol", "näme", "日本語", "emoji 🚀", "name", "highway", "residential", "x=1;y=2", "a  b", "outer", "inner", "", "stop", "ref", "12", "building", "yes"}
 
-func (g *pgen) str() string { return pgStrings[g.r.Intn(len(pgStrings))] }
+func (g *pgen) str() string        { return pgStrings[g.r.Intn(len(pgStrings))] }
 func (g *pgen) p64(v int64) *int64 { return &v }
 
 func (g *pgen) info() *PInfo {
